@@ -146,7 +146,7 @@ CONC_ASSUME = [
     "SetCustomerValidFn / SetStructTypeCache / SetDelCallBackFn run before the goroutines start, as the properties state",
 ]
 CHECKS["C08"] = {
-    "modules": ["PGV.Props.C08", "PGV.Props.Facts"], "audits": ["PGV/Audit/C08.lean"],
+    "modules": ["PGV.Props.C08"], "audits": ["PGV/Audit/C08.lean"],
     "streams": ["cache-default", "cache-lru0", "cache-lru1", "cache-lru2", "cache-lru3", "cache-lru8", "cache-syncmap", "cache-miss"], "thorough_seeds": 2,
     "assumptions": WALK_ASSUME + ["a CacheEr is sound: Load(k) returns only a value stored under an equal key (proved for the bounded LRU of every capacity, the unbounded map and the always-miss cache); cached values are immutable (the per-call override acts on a copy: checked by correspondence over histories)"],
     "explanation": "C08_history: for every sound cache, every history of calls and every call (any number of type lookups) each call returns its cache-free result, and the caches of the property are sound (lruSound for every capacity incl. 0, mapSound, missSound); C08_cache_independent; streams cache-*: one process per cache configuration (SetStructTypeCache), sequential histories over 700 struct types x 3 tag names x overrides, every result compared with the model's fresh-state result",
